@@ -195,6 +195,8 @@ class Context:
             return VOpaque(z3.Const('NotImplemented', T.Obj))
         if name == '__name__':
             return VSeq(S.Empty, 'str')
+        if name in self.registry.externs or ('<ext>', name) in self.registry.contracts:
+            return self.extern_value(name)      # a builtin the sidecar declares (e.g. open)
         return None
 
     def extern_value(self, dotted):
@@ -518,7 +520,42 @@ class Context:
         return None
 
     def exec_with(self, I, node, frame):
-        raise Unsupported('with statement', node)
+        """`with m [as x]: body` = x = m.__enter__(); try body; finally-like m.__exit__(...) (PEP 343).  For an object of an
+        unverified library (a file, a lock) `__enter__` returns the object itself and `__exit__` is the opaque event
+        `<label>.__exit__`, which never swallows an exception (true of files and locks; recorded as an assumption)."""
+        if len(node.items) > 1:
+            inner = ast.With(items=node.items[1:], body=node.body)
+            ast.copy_location(inner, node)
+            node = ast.With(items=node.items[:1], body=[inner])
+            ast.copy_location(node, inner)
+        item = node.items[0]
+        mgr = I.unwrap(I.ev(item.context_expr, frame), node)
+        is_obj = I.is_obj(mgr) and I.cell(mgr).cls is not None
+
+        def call_m(name, args):
+            if is_obj:
+                return I.call(I.getattr(mgr, name, node, frame, for_call=True), args, {}, node, frame)
+            if isinstance(mgr, VOpaque):
+                if name == '__enter__':
+                    return mgr
+                return self.opaque_method(I, mgr, name, [], {}, node)
+            raise Unsupported('with on %r' % (mgr,), node)
+        entered = call_m('__enter__', [])
+        if item.optional_vars is not None:
+            I.assign(item.optional_vars, entered, frame)
+        try:
+            I.ex_block(node.body, frame)
+        except PyExc as pe:
+            r = call_m('__exit__', [VOpaque(I.fresh('exc_type', T.Obj), 'exc_type'), pe.exc, NONE])
+            if is_obj:
+                t = I.truthy(r, node)
+                if I.branch(t):
+                    return
+            raise
+        except (ReturnSig, BreakSig, ContinueSig):
+            call_m('__exit__', [NONE, NONE, NONE])
+            raise
+        call_m('__exit__', [NONE, NONE, NONE])
 
     def hex_to_int(self, I, v, node):
         raise Unsupported('int(x, 16)', node)
@@ -1553,6 +1590,9 @@ class Context:
     def call_mode(self, I, fi):
         key = fi.key
         R = self.registry
+        if key in R.contracts and R.contracts[key].kw.get('opaque_at_calls') and key in R.opaques \
+                and not (self.current is not None and self.current.key == key):
+            return 'opaque'         # verified on its own; callers see one event (their contracts speak about that event)
         if key in R.contracts:
             # the function under verification calling itself, or any other function under contract
             if R.contracts[key].kw.get('inline') and not (self.current is not None and self.current.key == key):
@@ -1726,9 +1766,26 @@ class Context:
             else:
                 res = self.make_symbolic(I, contract.ret, 'r_' + fi.name)
         in_callee()
-        for c in contract.of('ensures'):
-            v = self.eval_spec(I, c.args[0], env, contract.sidecar, pre, entry_env, result=res, has_result=True)
-            I.assume(I.truthy(v))
+        pc_before = list(I.st.pc)
+        dead = False
+        try:
+            for c in contract.of('ensures'):
+                v = self.eval_spec(I, c.args[0], env, contract.sidecar, pre, entry_env, result=res, has_result=True)
+                I.assume(I.truthy(v))
+        except PathEnd:
+            dead = True
+        # vacuity guard: the post-condition of a verified callee cannot contradict a feasible caller state; if it does, the
+        # contract (or its instantiation over the ghost trace) is wrong and everything after the call would hold vacuously
+        if contract.of('ensures') and not contract.assumed and (dead or not prover.feasible(self.axioms(True), I.st.pc, z3.BoolVal(True), timeout_ms=500)):
+            if prover.feasible(self.axioms(True), pc_before, z3.BoolVal(True), timeout_ms=500):
+                name = '%s:vacuity:call-consistent[%s]' % (I.cur_func, fi.qualname)
+                if name not in self.__dict__.setdefault('_call_vacuous', set()):
+                    self._call_vacuous.add(name)
+                    self.record(Obligation(name, I.cur_func, 'vacuity', 'failed', 'z3-5.1.0(cover)', 0.0, [],
+                                           'assuming the post-condition of %s at this call site makes the path infeasible: the rest of the '
+                                           'caller would be verified vacuously' % fi.qualname))
+        if dead:
+            raise PathEnd()
         back()
         return res
 
@@ -2147,6 +2204,9 @@ class Context:
         except PyExc as pe:
             exc = pe.exc
         q = fi.qualname
+        if os.environ.get('PYVC_TRACE'):
+            print('PATH', q, 'decisions', list(I.decisions), 'exc', exc and (exc.cls, exc.origin), 'events',
+                  [getattr(e, 'name', '?') for e in I.st.trace])
         if prover.feasible(self.axioms(True), I.st.pc, z3.BoolVal(True), timeout_ms=1000):
             self.reports[contract.key].live_paths = getattr(self.reports[contract.key], 'live_paths', 0) + 1
         if exc is None:
